@@ -179,6 +179,8 @@ def dir_requests(prefix, fchild, mchild, dchild, caps):
     R.append(("POST-mkdir-immutable", "POST", prefix + "/newdir?t=mkdir-immutable", b"{}", {}))
     b, h = form({"t": "upload", "file": ("up.txt", body)})
     R.append(("POST-upload", "POST", prefix, b, h))
+    b, h = form({"t": "upload", "format": "SDMF", "file": ("upm.txt", body)})
+    R.append(("POST-upload-new-mutable", "POST", prefix, b, h))
     b, h = form({"t": "uri", "name": "link", "uri": caps["f"]})
     R.append(("POST-uri", "POST", prefix, b, h))
     R.append(("POST-set_children", "POST", prefix + "?t=set_children", json.dumps({"kid": ["filenode", {"ro_uri": caps["f"]}]}).encode(), {}))
